@@ -358,13 +358,33 @@ SOUP = ['<a', '<b', ' ', ' ', '>', '>', '/>', '</a', '</b', 'x="1"', "y='2'", 'z
         '<a>', '<b>', '</b>', '\t', '\xe9', '\xb2']
 
 
+ATTR_SOUP = ['x="1"', "y='2'", 'z=3', 'w', 'w="', "w='", 'w=', '="1"', '"', "'", 'a"b"', 'x="1"y="2"', 'x = "1"', 'x=\n"1"', '\u0663x="1"',
+             'x="a>b"', "x='a<b'", 'x=a"b', '/', '=', 'x==1', 'x="1""', 'x=\'1\'\'', 'x="', 'é="1"', 'x:y="1"' if False else 'xml:lang="e"', '&amp;', 'x=&amp;',
+             'x="&"', '<', 'x=<', '-x="1"', '.y', '_z', '@c="1"', ':v="1"', 'a.b=c']
+
+
+def tag_soup(rng):
+    """A start tag with well-formed and broken attribute pieces, possibly content and an end tag."""
+    name = rng.choice(['a', 'b', 'p', 'B', 'x-y'])
+    s = '<' + name
+    for _ in range(rng.randint(0, 3)):
+        s += rng.choice([' ', ' ', '\n', '\t', '  ', '']) + rng.choice(ATTR_SOUP)
+    s += rng.choice(['>', '>', '/>', ' >', ' />', '', '\n>'])
+    if rng.random() < .6:
+        s += rng.choice(['t', '', ' ', 'x>y', '"']) + rng.choice(['</%s>' % name, '</%s >' % name, '</%s' % name, '', '</>'])
+    return s
+
+
 def layer_soup(ctx, n):
     """Tag soup proper: random concatenations of markup fragments (unterminated start and end tags,
     stray quotes, names starting with a non-ASCII digit, ...).  Whatever of it compiles must render
     to itself; what is rejected must be rejected with a TemplateError (judged by C11, counted here)."""
     rng = ctx.rng
     for _ in range(n):
-        s = ''.join(rng.choice(SOUP) for _ in range(rng.randint(1, 7)))
+        if rng.random() < .5:
+            s = ''.join(rng.choice(SOUP) for _ in range(rng.randint(1, 7)))
+        else:
+            s = rng.choice(['', 't', '<i>']) + tag_soup(rng) + rng.choice(['', tag_soup(rng), ' u'])
         if active(s):
             continue
         ctx.cover('layer', 'soup')
